@@ -26,19 +26,19 @@ import (
 // applicable fault kind).
 
 type c12Scenario struct {
-	Schema *schema.Node    `json:"schema"`
-	Store  string          `json:"store"`
-	Init   *model.Tree     `json:"init"`
-	Op     sess.Op         `json:"op"`
-	Mode   string          `json:"mode"`             // from into jsonwtr xmlwtr
-	Extend bool            `json:"extend,omitempty"` // target root (and every descendant) sits inside a pass-through nodeutil.Extend
+	Schema *schema.Node `json:"schema"`
+	Store  string       `json:"store"`
+	Init   *model.Tree  `json:"init"`
+	Op     sess.Op      `json:"op"`
+	Mode   string       `json:"mode"`             // from into jsonwtr xmlwtr
+	Extend bool         `json:"extend,omitempty"` // target root (and every descendant) sits inside a pass-through nodeutil.Extend
 	// Trigger installs a node.Trigger on the target's browser (the trigger table is
 	// consulted before the node on begin, after it on end); TrigFail makes its
 	// n-th call fail (-1: never). Triggers are not nodes: with a failing trigger
 	// only pairing, audience and no-panic are demanded.
-	Trigger  bool `json:"trigger,omitempty"`
-	TrigFail int  `json:"trig_fail,omitempty"`
-	Faults []simnode.Fault `json:"faults,omitempty"`
+	Trigger  bool            `json:"trigger,omitempty"`
+	TrigFail int             `json:"trig_fail,omitempty"`
+	Faults   []simnode.Fault `json:"faults,omitempty"`
 }
 
 func (sc *c12Scenario) bind() error {
@@ -51,10 +51,10 @@ type c12Exec struct {
 	trigCalls int    // calls the trigger saw during the operation
 	trigFault string // "trigger-OnBegin" / "trigger-OnEnd" when the trigger failed
 	ss        *simnode.Session
-	res     sess.Result
-	start   int // first event of the operation proper
-	log     *kit.Log
-	harness error
+	res       sess.Result
+	start     int // first event of the operation proper
+	log       *kit.Log
+	harness   error
 }
 
 func c12Run(env *sess.Env, sc *c12Scenario, faults []simnode.Fault) c12Exec {
